@@ -21,6 +21,7 @@ var c19Docs = []string{
 	`{"weights":{}}`,                         // weight-less (partition-only) announcement
 	`{"weights":{"http://h1:80":1.5}}`,       // one host
 	`{"weights":{"https://h2:443":0,"http://h3:80":2}}`, // two hosts, one with zero weight
+	`{"weights":{"https://h4:443":0}}`,                  // one host announced with weight zero
 }
 
 type c19SyntaxError struct{}
@@ -59,6 +60,8 @@ func ZZStub_encoding_json_Unmarshal(data []byte, v interface{}) error {
 		case 3:
 			u.Weights[c19MustParse("https://h2:443")] = 0
 			u.Weights[c19MustParse("http://h3:80")] = 2
+		case 4:
+			u.Weights[c19MustParse("https://h4:443")] = 0
 		}
 		return nil
 	}
@@ -115,7 +118,11 @@ func Harness_C19_Fold() {
 			verif.Assert(ok == had && got == old, "a malformed or weight-less update was not ignored")
 		default:
 			verif.Assert(ok && got != old, "a valid update was not applied")
-			verif.Assert(len(got.Weights) == kind-1, "the applied announcement does not carry the payload's hosts")
+			wantHosts := []int{0, 0, 1, 2, 1}[kind]
+			verif.Assert(len(got.Weights) == wantHosts, "the applied announcement does not carry the payload's hosts")
+			for h := range got.Weights {
+				verif.Assert(h.Host != "old"+c19Nodes[target][1:] && h.Host != "old", "the announcement still lists the old host")
+			}
 		}
 	}
 	n := 0
